@@ -418,6 +418,24 @@ class BZ(B):
         return r
 
 
+class BP(B):
+    """an order comparison of a value with a constant c >= 0 whose outcome `when` implies that the value is > 0; the
+    engine context then remembers the value (canonical key) as non-zero for later divisions on the same path"""
+    __slots__ = ('key', 'when')
+
+    def __init__(self, t, key, when):
+        self.t = t
+        self.key = key
+        self.when = when
+
+    def __bool__(self):
+        ctx = _eng.cur()
+        r = ctx.branch(self.t)
+        if r == self.when:
+            ctx.__dict__.setdefault('_nonzero_keys', set()).add(self.key)
+        return r
+
+
 def _bt(o):
     if isinstance(o, B):
         return o.t
@@ -584,6 +602,8 @@ class R:
         elif len(self.n) == 1:
             # single monomial: zero iff one of its variables is zero
             nz = None
+        if nz is not True and self.d is None and _eng._key_of(self) in _eng.cur().__dict__.get('_nonzero_keys', ()):
+            nz = True  # `self > c >= 0` was decided on this path (BP)
         if nz is not True:
             # fork on denominator == 0 (numpy would give inf/nan there)
             cur = _eng.cur()
@@ -718,7 +738,7 @@ class R:
                 v, e = worst
                 k = (-e + 1) // 2
                 xw = self * R({((v, 2 * k), ): (1, 0)})
-                return xw.sqrt() * R({((v, -k), ): (1, 0)})
+                return xw.sqrt() * R({((v, -k), ): (1, 0)}, nn=True)  # (nn: a power of a sqrt variable is >= 0)
         if self.is_const():
             c = self.const()
             if c < 0:
@@ -788,9 +808,17 @@ class R:
         if not d.is_real():
             raise SymLeak("order comparison of complex numbers")
         lz = _eng.cur().lazy_cmp(self, R.lift(o), op)
-        if lz is not None:
-            return lz
-        return _mkB(op(d.z3()[0], z3.RealVal(0)))
+        res = lz if lz is not None else _mkB(op(d.z3()[0], z3.RealVal(0)))
+        o2 = R.lift(o)
+        if isinstance(res, B) and o2 is not None and o2.is_const() and self.d is None:
+            # `x > c` (c >= 0) taken on a path makes x a known non-zero value: a later `1/x` does not fork again (BP below)
+            c = _const_val(o2.n)[0]
+            gt, eq, lt = bool(op(1, 0)), bool(op(0, 0)), bool(op(0, 1))
+            if c >= 0 and gt and not lt and (not eq or c > 0):
+                return BP(res.t, _eng._key_of(self), True)
+            if c >= 0 and lt and not gt and (eq or c > 0):
+                return BP(res.t, _eng._key_of(self), False)
+        return res
 
     def __lt__(self, o):
         return self._cmp(o, lambda a, b: a < b)
@@ -829,7 +857,12 @@ class R:
                 if len(m) == 1 and m[0][1] == 1 and m[0][0] in REG.sqrt_def and not (
                         _eng._CUR[0] is not None and _eng._CUR[0].opts.get('named_zero_tests')):
                     # (with the opt-in 'named_zero_tests' the linear test `w == 0` is kept: over-approximates the paths)
-                    return R(REG.sqrt_def[m[0][0]]) == 0
+                    # (same z3 term as the radicand in engine.lazy_cmp, so that `w > c` on the path refutes it linearly)
+                    rad = R(REG.sqrt_def[m[0][0]])
+                    if any(e < 0 for mm in rad.n for _, e in mm):
+                        return rad == 0
+                    b = _mkB(rad.z3()[0] == 0)
+                    return BZ(b.t, rad) if isinstance(b, B) else b
         if len(d.n) == 1 and not REG.sqrt_def:
             (m, _c), = d.n.items()
             if all(REG.kind[v] == 'p' for v, _ in m):
